@@ -1024,6 +1024,42 @@ def tables_group():
         g.report["levelStore"] = "ok"
     except Exception as e:  # noqa: BLE001
         g.report["levelStore"] = "FAILED: %r" % (e,)
+    # C12: process-global mutable state on the solve path (module-level singletons, `global` statements,
+    # mutable closure cells and mutable default arguments)
+    try:
+        found = []
+        for fname in ("solver.py", "utils.py", "fft_manager.py", "config.py", "cache.py", "pbl_model.py"):
+            t = ast.parse(open(os.path.join(REPO_SRC, fname)).read())
+            for n in t.body:
+                if isinstance(n, ast.Assign):
+                    for tg in n.targets:
+                        nm = ast.unparse(tg)
+                        v = n.value
+                        mutable = isinstance(v, (ast.Dict, ast.List, ast.Set)) or (isinstance(v, ast.Call) and ast.unparse(v.func) in ("dict", "list", "set"))
+                        if fname == "config.py" or mutable or (isinstance(v, ast.Constant) and v.value is None):
+                            found.append("%s:%s" % (fname, nm))
+            for n in ast.walk(t):
+                if isinstance(n, ast.Global):
+                    for nm in n.names:
+                        found.append("%s:global %s" % (fname, nm))
+                if isinstance(n, ast.FunctionDef):
+                    for dflt in n.args.defaults + [d for d in n.args.kw_defaults if d is not None]:
+                        if isinstance(dflt, (ast.Dict, ast.List, ast.Set)):
+                            found.append("%s:%s mutable default" % (fname, n.name))
+                    # mutable cells captured by a nested function (memo tables)
+                    inner = [m for m in n.body if isinstance(m, ast.FunctionDef)]
+                    if inner:
+                        for m in n.body:
+                            if isinstance(m, ast.Assign) and isinstance(m.value, (ast.Dict, ast.List, ast.Set)):
+                                found.append("%s:%s.%s closure cell" % (fname, n.name, ast.unparse(m.targets[0])))
+                if isinstance(n, ast.Attribute) and ast.unparse(n) in ("pyfftw.config.NUM_THREADS",) and isinstance(n.ctx, ast.Store):
+                    found.append("%s:writes pyfftw.config.NUM_THREADS" % fname)
+                if isinstance(n, ast.Call) and ast.unparse(n.func) in ("set_num_threads", "numba.set_num_threads"):
+                    found.append("%s:calls set_num_threads" % fname)
+        lines.append("def globalState : List String := %s" % lean_strs(sorted(set(found))))
+        g.report["globalState"] = "ok"
+    except Exception as e:  # noqa: BLE001
+        g.report["globalState"] = "FAILED: %r" % (e,)
     # C13: keyword -> expression tables of run_bldfm_single (local names inlined)
     try:
         itree = ast.parse(open(os.path.join(REPO_SRC, "interface.py")).read())
